@@ -104,7 +104,16 @@ def reserved_paths(mod, fn, nodes, roots):
         if not c.args:
             continue
         env = loop_env(mod, c, fn, roots)
-        paths += expr_paths(mod, fn, c.args[0], env, c)
+        a = c.args[0]
+        if isinstance(a, ast.Name) and a.id not in env:
+            # loop variable over the ids an id-collector helper yields
+            lp = mod.parent.get(c)
+            while lp is not None and lp is not fn and not (isinstance(lp, ast.For) and isinstance(lp.target, ast.Name) and lp.target.id == a.id):
+                lp = mod.parent.get(lp)
+            if isinstance(lp, ast.For) and isinstance(lp.iter, ast.Call):
+                paths += expr_paths(mod, fn, lp.iter, loop_env(mod, lp, fn, roots), lp)
+                continue
+        paths += expr_paths(mod, fn, a, env, c)
     return paths
 
 
@@ -145,14 +154,89 @@ def expr_paths(mod, fn, e, env, at):
             if len(prm) == 1 and base is not None:
                 out = []
                 for r in walk_no_nested(helper):
+                    val = None
                     if isinstance(r, ast.Return) and r.value is not None:
-                        out += expr_paths(mod, helper, r.value, {prm[0]: base}, r)
+                        val = r.value
+                    elif isinstance(r, ast.Expr) and isinstance(r.value, (ast.Yield, ast.YieldFrom)) and r.value.value is not None:
+                        val = r.value.value
+                    if val is None:
+                        continue
+                    henv = loop_env(mod, r, helper, [prm[0]])
+                    henv = {k: v.replace("<obj>", base, 1) for k, v in henv.items()}
+                    out += expr_paths(mod, helper, val, henv, r)
                 return out
     p = path_of(e, env)
     return [p] if p is not None else ["?" + norm(e)]
 
 
 HELPERS = {}
+
+
+def _stmt_of(mod, node):
+    while node is not None and not isinstance(node, ast.stmt):
+        node = mod.parent.get(node)
+    return node
+
+
+def tail_after(mod, fn, stmt, calls):
+    """release calls that every execution passing `stmt` goes on to reach: later siblings (not under a further
+    condition) of stmt or of the statements enclosing it, as long as the enclosing block does not leave first"""
+    out = []
+    cur = stmt
+    while cur is not None and cur is not fn:
+        par = mod.parent.get(cur)
+        for field in ("body", "orelse", "finalbody"):
+            lst = getattr(par, field, None)
+            if isinstance(lst, list) and cur in lst:
+                for later in lst[lst.index(cur) + 1:]:
+                    if isinstance(later, (ast.Return, ast.Raise, ast.Continue, ast.Break)):
+                        return out
+                    for c in calls:
+                        st = _stmt_of(mod, c)
+                        if st is later or (isinstance(later, ast.For) and any(st is x for x in later.body)):
+                            out.append(c)
+        if isinstance(par, (ast.For, ast.While)):
+            break
+        cur = par
+    return out
+
+
+def tail_guarded(mod, fn, call):
+    """A release placed after an if/elif chain is reached only through the branches that do not leave the function;
+    it is guarded when each of those branches is entered under a containment test and the chain's else leaves."""
+    st = _stmt_of(mod, call)
+    par = mod.parent.get(st)
+    while isinstance(par, ast.For):
+        st, par = par, mod.parent.get(par)
+    lst = None
+    for field in ("body", "orelse"):
+        l2 = getattr(par, field, None)
+        if isinstance(l2, list) and st in l2:
+            lst = l2
+    if lst is None:
+        return False
+    from ..core import terminates
+
+    for prev in reversed(lst[: lst.index(st)]):
+        if not isinstance(prev, ast.If):
+            continue
+        node = prev
+        ok = True
+        seen_any = False
+        while True:
+            if not terminates(node.body):
+                seen_any = True
+                if not guard_means_contained(node.test, True):
+                    ok = False
+            if len(node.orelse) == 1 and isinstance(node.orelse[0], ast.If):
+                node = node.orelse[0]
+                continue
+            if not node.orelse or not terminates(node.orelse):
+                ok = False  # falling through without having found the object
+            break
+        if ok and seen_any:
+            return True
+    return False
 
 
 def guard_means_contained(t, pol):
@@ -300,6 +384,12 @@ def run(repo, res, tier):
                 if len(rkinds) > 1:  # branch per registry
                     reg = registry_of.get(k)
                     mine = [c for c in calls if any(reg and ("self.%s" % reg) in norm(t) for t, pol in dominating_guards(mod, c, stop=fn) if pol)]
+                    # a release in the common tail after the branch chain belongs to every branch that reaches it
+                    drops = [d for d in walk_no_nested(fn) if isinstance(d, ast.Delete) and any(isinstance(t, ast.Subscript) and norm(t.value) == "self.%s" % reg for t in d.targets)]
+                    for d in drops:
+                        for c in tail_after(mod, fn, d, calls):
+                            if c not in mine:
+                                mine.append(c)
                 paths = sorted(reserved_paths(mod, fn, mine, [p]))
                 inst = "%s[%s form, %s] releases %s" % (rname, form, k, paths)
                 res.check(
@@ -315,7 +405,7 @@ def run(repo, res, tier):
                 # guard: each release dominated by a containment test or by the `found` result of the drop
                 for c in mine:
                     guards = dominating_guards(mod, c, stop=fn)
-                    ok = any(guard_means_contained(t, pol) for t, pol in guards)
+                    ok = any(guard_means_contained(t, pol) for t, pol in guards) or tail_guarded(mod, fn, c)
                     # releasing ids of sub-objects (incomings) of an object whose own release is guarded
                     res.check(
                         "PAIR-GUARD",
@@ -396,6 +486,8 @@ def run(repo, res, tier):
                 tg = n.targets if isinstance(n, ast.Assign) else [n.target]
                 if not any(norm(t) == "self._id_counter" for t in tg):
                     continue
+                if mn == "generate_object_id":
+                    continue  # decided by the lower-bound interpretation below
                 v = n.value
                 guards = dominating_guards(mod, n, stop=fn)
                 none_guard = any(pol and norm(t) == "self._id_counter is None" for t, pol in guards)
@@ -410,17 +502,113 @@ def run(repo, res, tier):
                     ok = True
                 res.check("COUNTER", "%s: %s" % (mn, norm(n)), ok, mod, n, "%s: %s" % (mn, norm(n)), "the id counter can decrease: generate_object_id may return an id it returned before", qualname="Scenario." + mn)
     gen = repo.method(S, "Scenario", "generate_object_id")
-    rets = [n for n in walk_no_nested(gen) if isinstance(n, ast.Return)]
-    ok = len(rets) == 1 and norm(rets[0].value) == "self._id_counter"
-    body = [s for s in gen.body if not (isinstance(s, ast.Expr) and isinstance(s.value, ast.Constant))]
-    ok = ok and len(body) >= 2 and isinstance(body[-2], ast.AugAssign) and norm(body[-2].target) == "self._id_counter"
-    res.check("COUNTER", "generate_object_id returns the counter right after incrementing it", ok, mod, gen, "generate_object_id return", "the returned id is not the freshly incremented counter", qualname="Scenario.generate_object_id")
-    folded = False
-    for n in walk_no_nested(gen):
-        if isinstance(n, ast.Call) and call_name(n) == "max" and len(n.args) == 1 and norm(n.args[0]) == "self._id_set":
-            folded = True
-    uses = any(isinstance(n, ast.Assign) and norm(n.targets[0]) == "self._id_counter" and isinstance(n.value, ast.Call) and call_name(n.value) == "max" for n in walk_no_nested(gen))
-    res.check("COUNTER", "generate_object_id folds max(_id_set) into the counter", folded and uses, mod, gen, "generate_object_id max(_id_set)", "ids in use are not taken into account: a generated id may collide with a contained object", qualname="Scenario.generate_object_id")
+    # lower-bound abstract interpretation: a value is described by the set of (symbol, k) with value >= symbol + k;
+    # symbols: C = the counter on entry (None counts as 0), M = max(_id_set).  Run once assuming the pool is
+    # non-empty and once assuming it is empty.
+    def lb_run(nonempty):
+        env = {"self._id_counter": {("C", 0)}}
+
+        def pool_test(t):
+            """True / False if the test asks whether the pool is non-empty, else None"""
+            txt = norm(t)
+            if txt in ("self._id_set", "len(self._id_set) > 0", "len(self._id_set) != 0", "len(self._id_set) >= 1", "bool(self._id_set)", "0 < len(self._id_set)"):
+                return nonempty
+            if txt in ("not self._id_set", "len(self._id_set) == 0"):
+                return not nonempty
+            return None
+
+        def ev(e):
+            if isinstance(e, ast.Constant) and isinstance(e.value, int):
+                return {("#", e.value)}
+            t = norm(e)
+            if t in env:
+                return set(env[t])
+            if isinstance(e, ast.IfExp):
+                tt = norm(e.test)
+                if tt == "self._id_counter is None" and isinstance(e.body, ast.Constant) and e.body.value == 0 and norm(e.orelse) == "self._id_counter":
+                    return set(env["self._id_counter"])
+                if tt == "self._id_counter is not None" and isinstance(e.orelse, ast.Constant) and e.orelse.value == 0 and norm(e.body) == "self._id_counter":
+                    return set(env["self._id_counter"])
+                pt = pool_test(e.test)
+                if pt is not None:
+                    return ev(e.body) if pt else ev(e.orelse)
+                return ev(e.body) & ev(e.orelse)
+            if isinstance(e, ast.Call) and call_name(e) == "max":
+                if len(e.args) == 1 and norm(e.args[0]) == "self._id_set":
+                    return {("M", 0)} if nonempty else set()
+                if len(e.args) == 1 and isinstance(e.args[0], (ast.List, ast.Tuple)):
+                    out = set()
+                    for x in e.args[0].elts:
+                        out |= ev(x)
+                    return out
+                if any(isinstance(k, ast.keyword) and k.arg == "default" for k in e.keywords) and len(e.args) == 1 and norm(e.args[0]) == "self._id_set":
+                    return ({("M", 0)} if nonempty else set()) | (ev([k.value for k in e.keywords if k.arg == "default"][0]) if not nonempty else set())
+                out = set()
+                for x in e.args:
+                    out |= ev(x)
+                return out
+            if isinstance(e, ast.BinOp) and isinstance(e.op, ast.Add):
+                for x, y in ((e.left, e.right), (e.right, e.left)):
+                    if isinstance(y, ast.Constant) and isinstance(y.value, int) and y.value >= 0:
+                        return {(sy, k + y.value) for sy, k in ev(x)}
+            return set()
+
+        ret = [None]
+
+        def run_block(stmts):
+            for st in stmts:
+                if isinstance(st, ast.Assign) and len(st.targets) == 1:
+                    env[norm(st.targets[0])] = ev(st.value)
+                elif isinstance(st, ast.AnnAssign) and st.value is not None:
+                    env[norm(st.target)] = ev(st.value)
+                elif isinstance(st, ast.AugAssign) and isinstance(st.op, ast.Add) and isinstance(st.value, ast.Constant) and isinstance(st.value.value, int) and st.value.value >= 0:
+                    env[norm(st.target)] = {(sy, k + st.value.value) for sy, k in env.get(norm(st.target), set())}
+                elif isinstance(st, ast.AugAssign):
+                    env[norm(st.target)] = set()
+                elif isinstance(st, ast.If):
+                    tt = norm(st.test)
+                    pt = pool_test(st.test)
+                    if tt == "self._id_counter is None":
+                        # inside: the counter is None, i.e. C == 0; `= 0` keeps the lower bound C
+                        saved = dict(env)
+                        run_block(st.body)
+                        a_env = dict(env)
+                        for k2, v2 in a_env.items():
+                            if v2 == {("#", 0)}:
+                                a_env[k2] = {("C", 0), ("#", 0)}
+                        env.clear()
+                        env.update(saved)
+                        run_block(st.orelse)
+                        for k2 in set(a_env) | set(env):
+                            env[k2] = a_env.get(k2, set()) & env.get(k2, set()) if k2 in a_env and k2 in env else set()
+                    elif pt is not None:
+                        run_block(st.body if pt else st.orelse)
+                    else:
+                        saved = dict(env)
+                        run_block(st.body)
+                        a_env = dict(env)
+                        env.clear()
+                        env.update(saved)
+                        run_block(st.orelse)
+                        for k2 in set(a_env) | set(env):
+                            env[k2] = a_env.get(k2, set()) & env.get(k2, set())
+                elif isinstance(st, ast.Return):
+                    ret[0] = (ev(st.value) if st.value is not None else set(), norm(st.value) if st.value is not None else None, set(env.get("self._id_counter", set())))
+                    return
+        run_block([x for x in gen.body if not (isinstance(x, ast.Expr) and isinstance(x.value, ast.Constant))])
+        return ret[0]
+
+    for nonempty in (True, False):
+        r = lb_run(nonempty)
+        tag = "pool non-empty" if nonempty else "pool empty"
+        if r is None:
+            res.bad("COUNTER", "generate_object_id (%s)" % tag, Finding("COUNTER", mod, gen, "generate_object_id has no straight-line return", "cannot follow how the new id is computed", qualname="Scenario.generate_object_id"))
+            continue
+        rv, rtxt, cnt = r
+        res.check("COUNTER", "generate_object_id (%s): the counter grows by at least one" % tag, ("C", 1) in cnt or any(sy == "C" and k >= 1 for sy, k in cnt), mod, gen, "generate_object_id (%s): new counter >= %s" % (tag, sorted(cnt)), "the id counter can stay or decrease: generate_object_id may return an id it returned before", qualname="Scenario.generate_object_id")
+        if nonempty:
+            res.check("COUNTER", "generate_object_id (%s): the new id exceeds every id in use" % tag, any(sy == "M" and k >= 1 for sy, k in cnt), mod, gen, "generate_object_id (%s): new counter >= %s" % (tag, sorted(cnt)), "ids in use are not taken into account: a generated id may collide with a contained object", qualname="Scenario.generate_object_id")
+        res.check("COUNTER", "generate_object_id (%s) returns the new counter" % tag, rv == cnt and bool(rv), mod, gen, "generate_object_id (%s) returns %s >= %s, counter >= %s" % (tag, rtxt, sorted(rv), sorted(cnt)), "the returned id is not the freshly incremented counter", qualname="Scenario.generate_object_id")
     return {"reserved_id_paths": reserved}
 
 
